@@ -207,7 +207,9 @@ class OpGen:
     def gen_kernel(self, force=None):
         api, rng = self.api, self.rng
         kind = force or rng.choice(["conv", "conv", "dw", "pool", "ew", "ew", "ew_unary"])
-        ifm_b = self.pick_buf()
+        # 32-bit feature maps (REDUCE_SUM results) feed elementwise operations only
+        ok32 = (lambda b: True) if kind in ("ew", "ew_unary") else (lambda b: b.dtype != api.NpuDataType.INT32)
+        ifm_b = self.pick_buf(ok32)
         if ifm_b is None:
             h, w, d = self.rand_shape()
             ifm_b = self.new_buf(h, w, d)
@@ -393,7 +395,8 @@ def describe_op(api, op):
 KNOWN_PAD_KEY = "blockdep-first-job-y-uses-padding-right"
 KNOWN_RSUM_KEY = "blockdep-reduce-sum-ifm-depth-from-ofm"
 KNOWN_LAYOUT_KEY = "blockdep-coordinate-shortcut-ignores-layout"
-FIXES = (("pad", KNOWN_PAD_KEY), ("rsum", KNOWN_RSUM_KEY), ("layout", KNOWN_LAYOUT_KEY))
+KNOWN_IFMWIN_KEY = "tile-padding-ifm-shape-smaller-than-read-window"
+FIXES = (("pad", KNOWN_PAD_KEY), ("rsum", KNOWN_RSUM_KEY), ("layout", KNOWN_LAYOUT_KEY), ("ifmwin", KNOWN_IFMWIN_KEY))
 
 
 def fixed_blockdeps(arch, ops):
@@ -403,6 +406,9 @@ def fixed_blockdeps(arch, ops):
               `right` field carrying `top` (`right` is read nowhere else inside calc_blockdep)
       rsum    get_ifm_ofm_block_depth returns the IFM depth for REDUCE_SUM (the operation reads every channel)
       layout  intersects() takes the coordinate shortcut only if layout, element size and strides agree as well
+      ifmwin  the IFM handed to the generator declares the window the hardware reads, (OFM-1)*stride + dilated
+              kernel - padding, when that is larger than `ifm.shape` (explicit padding through tile aliasing,
+              high_level_command_to_npu_op.modify_tile_addresses_for_padding, keeps the unpadded shape)
     Result: {op index: {"prev": index, "": emitted, "pad": …, "pad+rsum": …, …}}"""
     import copy
     import itertools
@@ -432,6 +438,16 @@ def fixed_blockdeps(arch, ops):
         if "pad" in fixes and o.padding is not None and o.padding.right != o.padding.top:
             o2 = copy.copy(o)
             o2.padding = api.NpuPadding(top=o.padding.top, left=o.padding.left, bottom=o.padding.bottom, right=o.padding.top)
+        if "ifmwin" in fixes and o.kernel is not None and o.ifm_upscale == api.NpuResamplingMode.NONE:
+            k, p = o.kernel, (o.padding or api.NpuPadding(0, 0, 0, 0))
+            need_h = (o.ofm.shape.height - 1) * k.stride_y + (k.height - 1) * k.dilation_y + 1 - p.top - p.bottom
+            need_w = (o.ofm.shape.width - 1) * k.stride_x + (k.width - 1) * k.dilation_x + 1 - p.left - p.right
+            if need_h > o.ifm.shape.height or need_w > o.ifm.shape.width:
+                if o2 is o:
+                    o2 = copy.copy(o)
+                o2.ifm = copy.copy(o.ifm)
+                o2.ifm.shape = api.NpuShape3D(height=max(need_h, o.ifm.shape.height), width=max(need_w, o.ifm.shape.width),
+                                              depth=o.ifm.shape.depth)
         rcsu.get_ifm_ofm_block_depth = depth_fixed if "rsum" in fixes else orig_depth
         rcsu.intersects = inter_fixed if "layout" in fixes else orig_inter
         try:
